@@ -24,13 +24,16 @@ from .. import core
 from .. import ctxlib as cl
 from ..util import exc_name
 
-FN = {"inter": "intersection", "diff": "difference", "updrec": "update_recursively",
+FN = {"inter": "intersection", "diff": "difference", "updrec": "update_recursively", "updstr": "update_recursively(string)",
       "nested": "update_nested", "recon": "reconstruct"}
 ACTIONS = ("IStart", "IPrune", "IReturn", "DStart", "DKey", "DReturn",
-           "UStart", "UKey", "UReturn", "NStart", "NWalk", "NInsert", "NAssign")
+           "UStart", "UStrConv", "UKey", "UReturn", "NStart", "NWalk", "NInsert", "NAssign")
 
 
 Fails = cl.Fails
+
+
+CLASSES = {"dict": dict, "MyDict": cl.MyDict}       # + Context, if it can be deep-copied (see run)
 
 
 def call(fns, op, args, lv, key, default_form):
@@ -51,15 +54,74 @@ def call(fns, op, args, lv, key, default_form):
     raise core.MachineryError("unknown op %r" % (op,))
 
 
+def replay_updstr(fails, rec, val, rnd, fns):
+    """update_recursively(d, "k1.k2...", value) and its variants; rec["key"] names the variant"""
+    variant, sz = rec["key"], cl.size(rec["args"])
+    exp_exc = rec["exc"]
+    chain, cur = [], rec["args"][1]
+    while cl.is_d(cur) and len(list(cl.items(cur))) == 1:
+        (k, v), = cl.items(cur)
+        chain.append(k)
+        cur = v
+    calls = []
+    if variant == "value":
+        # every way to read the one-key chain as "path + value" gives the same other dictionary
+        for n in range(1, len(chain) + 1):
+            rest = cur
+            for k in reversed(chain[n:]):
+                rest = {"k": "D", "m": {k: rest}}
+            calls.append((".".join(chain[:n]), [rest]))
+    elif variant == "novalue":
+        calls.append((".".join(chain + [cur["v"]]), []))
+    elif variant == "novalue1":
+        calls.append((chain[0], []))
+    else:
+        calls.append((None, None))
+    for s_arg, extra in calls:
+        d = cl.decode(rec["args"][0], val, rnd)
+        snap = copy.deepcopy(d)
+        other = s_arg if s_arg is not None else cl.decode(rec["args"][1], val, rnd)
+        pyextra = [1] if extra is None else [cl.decode(x, val, rnd) for x in extra]
+        try:
+            fns.update_recursively(d, other, *pyextra)
+            obs = ""
+        except Exception as exc:     # noqa
+            obs = exc_name(exc)
+        det = {"call": "update_recursively", "d": snap, "other": repr(other), "value": repr(pyextra), "variant": variant}
+        if obs != exp_exc:
+            fails.add("update_recursively(string):%s:%s" % (variant, obs or "no-" + exp_exc), sz, det)
+        elif not obs:
+            exp = cl.decode(rec["post"][0], val)
+            mm = cl.mismatches(exp, d)
+            if mm:
+                fails.add("update_recursively(string):d-after:%s" % mm[0][1], sz, dict(det, expected=exp, observed=d))
+        elif d != snap:
+            fails.add("update_recursively(string):changed-although-raised", sz, det)
+
+
 def replay(ctx, fails, rec, val, rnd, fns):
     op, lv, key = rec["op"], rec["lv"], rec["key"]
+    if op == "updstr":
+        return replay_updstr(fails, rec, val, rnd, fns)
     name = FN[op]
-    args = [cl.decode(a, val, rnd) for a in rec["args"]]
+    # the model's keys may stand for any hashable Python keys, falsy and non-string ones included,
+    # and its dictionaries for instances of dict subclasses
+    keymap = cl.random_keymap(rnd) if rnd.random() < 0.35 else None
+    cls_name = rec.get("cls", "dict")
+    if cls_name == "dict" and rnd.random() < 0.3:
+        cls_name = rnd.choice(sorted(CLASSES))
+    cls = CLASSES.get(cls_name, dict)
+    args = [cl.as_class(cl.decode(a, val, rnd, keymap=keymap), cls) for a in rec["args"]]
+    if keymap and key in keymap:
+        key = keymap[key]
     snap = copy.deepcopy(args)
     sz = cl.size(rec["args"])
 
     def detail(**kw):
-        d = {"call": name, "level": lv, "key": key, "args": snap, "valuation": cl.val_name(val)}
+        d = {"call": name, "level": lv, "key": repr(key), "args": repr(snap) if keymap else snap,
+             "valuation": cl.val_name(val), "class": cls_name}
+        if keymap:
+            kw = dict((k, repr(v)) for k, v in kw.items())
         d.update(kw)
         return d
     same_object = op in ("inter", "diff") and len(args) == 2 and rec["args"][0] == rec["args"][1] \
@@ -72,8 +134,11 @@ def replay(ctx, fails, rec, val, rnd, fns):
         fails.add("%s:raised:%s" % (name, exc_name(exc)), sz, detail(exception=repr(exc)))
         return
     if op in ("inter", "diff"):
-        exp = cl.decode(rec["res"], val)
+        exp = cl.decode(rec["res"], val, keymap=keymap)
         mm = cl.mismatches(exp, res)
+        if op == "inter" and args and type(res) is not type(args[0]):
+            # "returns a dictionary or its subtype (copied from dicts[0])"
+            fails.add("intersection:result-class", sz, detail(observed=type(res).__name__))
         if mm:
             fails.add("%s:result:%s" % (name, mm[0][1]), sz,
                       detail(expected=exp, observed=res, at=list(mm[0][0])))
@@ -97,7 +162,7 @@ def replay(ctx, fails, rec, val, rnd, fns):
                 fails.add("%s:repeated-call:raised:%s" % (name, exc_name(exc)), sz, detail(exception=repr(exc)))
         if op == "diff" and not mm:
             # recursively updating the intersection with the difference reconstructs d1
-            exp_inter = cl.decode(rec["inter"], val)
+            exp_inter = cl.decode(rec["inter"], val, keymap=keymap)
             try:
                 it = fns.intersection(*args, level=lv)
                 if it == exp_inter:     # a wrong intersection is judged by its own records
@@ -108,7 +173,7 @@ def replay(ctx, fails, rec, val, rnd, fns):
             except Exception as exc:     # noqa
                 fails.add("reconstruct:raised:%s" % exc_name(exc), sz, detail(exception=repr(exc)))
     else:
-        exp = cl.decode(rec["post"][0], val)
+        exp = cl.decode(rec["post"][0], val, keymap=keymap)
         mm = cl.mismatches(exp, args[0])
         if mm:
             fails.add("%s:d-after:%s" % (name, mm[0][1]), sz,
@@ -201,6 +266,27 @@ def random_trace(ctx, fails, fns, n):
             op, args = "diff", [a, b]
         elif x < 0.7:
             op, args = "recon", [a, b]
+        elif x < 0.75:
+            # the string form; the record carries the dictionary the string (and value) stand for
+            parts = [rnd.choice(keys) for _k in range(rnd.randint(1, 3))]
+            value = rnd.choice(leaves)() if rnd.random() < 0.6 else cl.random_dict(rnd, keys, 2, leaves)
+            if isinstance(value, str):
+                value = 3
+            other = value
+            for k in reversed(parts):
+                other = {k: other}
+            snap = copy.deepcopy(a)
+            enc = cl.Encoder()
+            before = [enc.enc(snap), enc.enc(copy.deepcopy(other))]
+            try:
+                fns.update_recursively(a, ".".join(parts), copy.deepcopy(value))
+            except Exception as exc:     # noqa
+                fails.add("update_recursively(string):raised:%s" % exc_name(exc), 10 ** 6,
+                          {"d": snap, "other": ".".join(parts), "value": repr(value)})
+                continue
+            trace.append({"op": "updrec", "lv": -1, "key": "-", "args": before, "res": enc.enc({}),
+                          "post": [enc.enc(a), before[1]]})
+            continue
         elif x < 0.85:
             op, args, lv = "updrec", [a, b], -1
         else:
@@ -255,6 +341,12 @@ def repo_trace(ctx):
 def run(ctx):
     import lena.context as fns
     tag = "thorough" if ctx.thorough else "quick"
+    try:
+        probe = copy.deepcopy(fns.Context({"a": fns.Context({"b": 1})}))
+        if type(probe) is fns.Context and probe == {"a": {"b": 1}}:
+            CLASSES["Context"] = fns.Context
+    except Exception:    # noqa
+        pass
     ctx.assume("leaves are used only through == (and truth value); symbolic classes c0..c2 are instantiated "
                "by Python values of distinct equality classes, several representatives per class")
     ctx.assume("update_nested: the chain other.key.key... consists of dictionaries (inserting the old value "
